@@ -6,6 +6,7 @@ open Pcore.Lat
 #print axioms C19_assert_sound
 #print axioms C19_assert_described_partial
 #print axioms C19_assert_described_fails_iterable_binary
+#print axioms C19_empty_iff_anyrule
 open Pcore.Desc
 #print axioms C19_describe_total
 #print axioms C19_describe_empty_iff
@@ -31,3 +32,5 @@ open Pcore.Desc
 #print axioms C19_patternMismatch_real_partial
 #print axioms C19_callable_total
 #print axioms C19_callable_empty_iff
+#print axioms C19_skeleton_agrees
+#print axioms C19_assert_message_partial
